@@ -80,6 +80,11 @@ def fresh_process_twins(rep, tier, seed):
     for i, kind in enumerate(["fifo_bayesopt", "hb_bayesopt", "hb_hypertune", "fifo_random", "dehb", "pbt"][: (4 if tier == "quick" else 6)]):
         specs.append({"what": "scheduler", "kind": kind, "space": ["s1", "s4", "s6"][i % 3], "p2e": None, "seed": seed + i,
                       "history": hists[i % len(hists)]})
+    # a long sequential history on a continuous space for HyperTune: its ensemble / bracket distribution is re-estimated
+    # from sampled ranking losses once the second rung holds enough results (20 trials, up to 9 reports each)
+    from harness.props import c16
+    specs.append({"what": "scheduler", "kind": "hbdeep_hypertune", "space": "sc", "p2e": [], "seed": seed + 9,
+                  "history": c16.deep_gp_history(20 if tier == "quick" else 30, [])})
     for i, kind in enumerate(["hb_promotion", "fifo", "synchb"][: (2 if tier == "quick" else 3)]):
         specs.append({"what": "simulation", "kind": kind, "seed": seed + i, "n_workers": 2 + i})
     runs = []
